@@ -926,6 +926,123 @@ Proof.
 Qed.
 
 (* ------------------------------------------------------------------ *)
+(* centroid_quadratic: the rows of the least-squares problem            *)
+(* ------------------------------------------------------------------ *)
+(* ---- which pixels are handed to lstsq ---- *)
+Lemma In_enum_from {A} (l : list A) : forall k i a,
+  In (i, a) (enum_from k l) <-> exists n, i = k + Z.of_nat n /\ nth_error l n = Some a.
+Proof.
+  induction l as [|b l IH]; intros k i a; cbn [enum_from In].
+  - split; [intros []|intros [[|n] [_ H]]; discriminate].
+  - rewrite IH. split.
+    + intros [[= <- <-]|[n [-> Hn]]]; [exists O; split; [lia|reflexivity]|exists (S n); split; [lia|exact Hn]].
+    + intros [[|n] [-> Hn]]; cbn in Hn.
+      * left. injection Hn as <-. f_equal. lia.
+      * right. exists n. split; [lia|exact Hn].
+Qed.
+
+Lemma In_cells (w : img (option Z)) x y v :
+  In (x, y, v) (cells w) <->
+  exists ny nx row, y = Z.of_nat ny /\ x = Z.of_nat nx /\
+                    nth_error w ny = Some row /\ nth_error row nx = Some (Some v).
+Proof.
+  unfold cells. rewrite in_flat_map. split.
+  - intros [[yi row] [Hy Hin]]. apply In_enum_from in Hy. destruct Hy as [ny [-> Hrow]].
+    apply in_flat_map in Hin. destruct Hin as [[xi o] [Hx Hin]]. cbn [fst snd] in *.
+    apply In_enum_from in Hx. destruct Hx as [nx [-> Ho]].
+    destruct o as [v'|]; [|destruct Hin]. destruct Hin as [[= <- <- <-]|[]].
+    exists ny, nx, row. repeat split; try lia; assumption.
+  - intros (ny & nx & row & -> & -> & Hrow & Ho).
+    exists (Z.of_nat ny, row). split; [apply In_enum_from; exists ny; split; [lia|exact Hrow]|].
+    apply in_flat_map. exists (Z.of_nat nx, Some v). cbn [fst snd].
+    split; [apply In_enum_from; exists nx; split; [lia|exact Ho]|left; reflexivity].
+Qed.
+
+Ltac break_match H :=
+  match type of H with
+  | context [match ?x with _ => _ end] =>
+      match x with
+      | context [match _ with _ => _ end] => fail 1
+      | _ => destruct x eqn:?; try discriminate H
+      end
+  end.
+
+Lemma quad_pre_QFit data mask xpeak ypeak fitbox search x0 x1 y0 y1 pts :
+  quad_pre data mask xpeak ypeak fitbox search = QFit x0 x1 y0 y1 pts ->
+  pts = filter (in_box x0 x1 y0 y1) (cells (work data mask)) /\ (6 <= length pts)%nat.
+Proof.
+  unfold quad_pre. intros H. cbv zeta in H.
+  repeat break_match H.
+  all: injection H as E1 E2 E3 E4 E5; subst x0 x1 y0 y1 pts; split; [reflexivity|apply Nat.ltb_ge; assumption].
+Qed.
+
+Lemma nth_error_iff {A} (l : list A) n a d :
+  nth_error l n = Some a <-> (n < length l)%nat /\ nth n l d = a.
+Proof.
+  split.
+  - intros H. split; [apply nth_error_Some; congruence|]. apply nth_error_nth. exact H.
+  - intros [Hn <-]. apply nth_error_nth'. exact Hn.
+Qed.
+
+Lemma work_rect data mask NY NX :
+  rect NY NX data -> mask_rect NY NX mask -> rect NY NX (work data mask).
+Proof.
+  intros [Hl Hr] Hm. destruct mask as [m|]; cbn [work]; [|split; assumption].
+  destruct Hm as [Ml Mr]. split; [rewrite map2_length; lia|].
+  intros y Hy. rewrite (map2_nth _ _ _ _ [] []) by lia. rewrite map2_length, Hr, Mr by lia. lia.
+Qed.
+
+Lemma work_nth data mask NY NX ny nx :
+  rect NY NX data -> mask_rect NY NX mask -> (ny < NY)%nat -> (nx < NX)%nat ->
+  nth nx (nth ny (work data mask) []) None = if pixm mask ny nx then None else pixd data ny nx.
+Proof.
+  intros [Hl Hr] Hm Hy Hx. unfold pixm, pixd. destruct mask as [m|]; cbn [work]; [|reflexivity].
+  destruct Hm as [Ml Mr]. rewrite (map2_nth _ _ _ _ [] []) by lia.
+  rewrite (map2_nth _ _ _ _ None false) by (rewrite ?Hr, ?Mr by lia; lia). reflexivity.
+Qed.
+
+Lemma work_pix data mask NY NX ny nx v :
+  rect NY NX data -> mask_rect NY NX mask ->
+  (exists row, nth_error (work data mask) ny = Some row /\ nth_error row nx = Some (Some v)) <->
+  (ny < NY)%nat /\ (nx < NX)%nat /\ pixm mask ny nx = false /\ pixd data ny nx = Some v.
+Proof.
+  intros Hd Hm. pose proof (work_rect data mask NY NX Hd Hm) as [Wl Wr]. split.
+  - intros (row & Hrow & Hv).
+    apply (nth_error_iff _ _ _ []) in Hrow. destruct Hrow as [Hy <-]. rewrite Wl in Hy.
+    apply (nth_error_iff _ _ _ None) in Hv. destruct Hv as [Hx Hv]. rewrite Wr in Hx by exact Hy.
+    rewrite (work_nth data mask NY NX) in Hv by assumption.
+    destruct (pixm mask ny nx); [discriminate|]. auto.
+  - intros (Hy & Hx & Hmk & Hv). exists (nth ny (work data mask) []). split.
+    + apply nth_error_nth'. lia.
+    + apply (nth_error_iff _ _ _ None). rewrite Wr by exact Hy. split; [exact Hx|].
+      rewrite (work_nth data mask NY NX) by assumption. rewrite Hmk. exact Hv.
+Qed.
+
+(* the rows of the least-squares problem are exactly the unmasked finite pixels of the
+   fit box, and there are at least six of them *)
+Lemma quadratic_fit_points data mask NY NX xpeak ypeak fitbox search x0 x1 y0 y1 pts :
+  rect NY NX data -> mask_rect NY NX mask ->
+  quad_pre data mask xpeak ypeak fitbox search = QFit x0 x1 y0 y1 pts ->
+  (6 <= length pts)%nat /\
+  forall x y v,
+    In (x, y, v) pts <->
+    exists ny nx, y = Z.of_nat ny /\ x = Z.of_nat nx /\
+                  x0 <= x < x1 /\ y0 <= y < y1 /\ (ny < NY)%nat /\ (nx < NX)%nat /\
+                  pixm mask ny nx = false /\ pixd data ny nx = Some v.
+Proof.
+  intros Hd Hm H. apply quad_pre_QFit in H. destruct H as [-> Hlen]. split; [exact Hlen|].
+  intros x y v. rewrite filter_In, In_cells. unfold in_box. split.
+  - intros [(ny & nx & row & -> & -> & Hrow & Hv) Hb].
+    exists ny, nx. split; [reflexivity|]. split; [reflexivity|].
+    split; [lia|]. split; [lia|]. apply (work_pix data mask NY NX); [assumption|assumption|].
+    exists row. auto.
+  - intros (ny & nx & -> & -> & Hx & Hy & Hrest). split; [|lia].
+    apply (work_pix data mask NY NX) in Hrest; [|assumption|assumption].
+    destruct Hrest as (row & Hrow & Hv). exists ny, nx, row. auto.
+Qed.
+
+
+(* ------------------------------------------------------------------ *)
 (* centroid_quadratic: the vertex formula (exact rationals)             *)
 (* ------------------------------------------------------------------ *)
 From Coq Require Import Qfield Lqa.
@@ -1239,6 +1356,60 @@ Proof.
   intros Hn. split; [apply vertex_critical; exact Hn|].
   split; [intros x y; apply critical_unique; exact Hn|].
   split; intros x y; apply (vertex_maximum c00 c x y Hn).
+Qed.
+
+(* ---- the vertex formula under the coefficient changes induced by flips,
+        transposition and rescaling of the fitted surface ---- *)
+
+Definition coef_scale (k : Q) (c : coef) : coef :=
+  let '(c10, c01, c11, c20, c02) := c in (k * c10, k * c01, k * c11, k * c20, k * c02).
+(* coefficients of (x, y) |-> P (a - x, y) *)
+Definition coef_flipx (a : Q) (c : coef) : coef :=
+  let '(c10, c01, c11, c20, c02) := c in (- (c10 + 2 * c20 * a), c01 + c11 * a, - c11, c20, c02).
+(* coefficients of (x, y) |-> P (y, x) *)
+Definition coef_swap (c : coef) : coef :=
+  let '(c10, c01, c11, c20, c02) := c in (c01, c10, c11, c02, c20).
+
+Lemma coef_scale_poly k c00 c x y : quad_poly (k * c00) (coef_scale k c) x y == k * quad_poly c00 c x y.
+Proof. destruct c as [[[[c10 c01] c11] c20] c02]. unfold quad_poly, coef_scale. ring. Qed.
+Lemma coef_flipx_poly a c00 c x y :
+  let '(c10, c01, c11, c20, c02) := c in
+  quad_poly (c00 + c10 * a + c20 * a * a) (coef_flipx a c) x y == quad_poly c00 c (a - x) y.
+Proof. destruct c as [[[[c10 c01] c11] c20] c02]. unfold quad_poly, coef_flipx. ring. Qed.
+Lemma coef_swap_poly c00 c x y : quad_poly c00 (coef_swap c) x y == quad_poly c00 c y x.
+Proof. destruct c as [[[[c10 c01] c11] c20] c02]. unfold quad_poly, coef_swap. ring. Qed.
+
+Lemma vertex_scale k c :
+  0 < k -> negdef c ->
+  negdef (coef_scale k c) /\
+  vertex_x (coef_scale k c) == vertex_x c /\ vertex_y (coef_scale k c) == vertex_y c.
+Proof.
+  destruct c as [[[[c10 c01] c11] c20] c02].
+  unfold negdef, coef_scale, vertex_x, vertex_y, qxnum, qynum, qdet. intros Hk [H1 H2].
+  assert (Hkk : 0 < k * k) by (apply Qmult_lt_0_compat; assumption).
+  assert (Hd : 0 < (k * k) * (4 * c20 * c02 - c11 * c11)) by (apply Qmult_lt_0_compat; assumption).
+  assert (Hn : 0 < k * (- c20)) by (apply Qmult_lt_0_compat; lra).
+  split; [split; lra|]. split; field; lra.
+Qed.
+
+Lemma vertex_flipx a c :
+  negdef c ->
+  negdef (coef_flipx a c) /\
+  vertex_x (coef_flipx a c) == a - vertex_x c /\ vertex_y (coef_flipx a c) == vertex_y c.
+Proof.
+  destruct c as [[[[c10 c01] c11] c20] c02].
+  unfold negdef, coef_flipx, vertex_x, vertex_y, qxnum, qynum, qdet. intros [H1 H2].
+  split; [split; lra|]. split; field; lra.
+Qed.
+
+Lemma vertex_swap c :
+  negdef c ->
+  negdef (coef_swap c) /\
+  vertex_x (coef_swap c) == vertex_y c /\ vertex_y (coef_swap c) == vertex_x c.
+Proof.
+  intros Hn. destruct c as [[[[c10 c01] c11] c20] c02]. pose proof (negdef_c02 _ _ _ _ _ Hn) as H0.
+  unfold negdef, coef_swap, vertex_x, vertex_y, qxnum, qynum, qdet in *. destruct Hn as [H1 H2].
+  split; [split; lra|]. split; field; lra.
 Qed.
 
 Local Close Scope Q_scope.
